@@ -26,7 +26,9 @@ PACKS = {"plain": dict(), "sym": dict(sym=True), "inf": dict(inf=True), "syminf"
          "symcycle": dict(sym=True, cycle=True),
          # two competing expansion strategies: the finder's second phase has alternatives to backtrack over
          "two": dict(expand2=True), "twosym": dict(expand2=True, sym=True),
-         "twocycle": dict(expand2=True, cycle=True), "twosymcycle": dict(expand2=True, cycle=True, sym=True)}
+         "twocycle": dict(expand2=True, cycle=True), "twosymcycle": dict(expand2=True, cycle=True, sym=True),
+         # a letter swap whose one-child rules are declared non-equivalences: classes share labels without being equivalent
+         "symmarked": dict(sym_marked=True)}
 ABC3 = [(("ab", "cc"), "abc"), (("bc", "aa"), "abc"), (("ca", "bb"), "abc"), (("ba", "cc"), "abc"), (("ac", "bb"), "abc"),
         (("cc",), "abc"), (("aa",), "abc"), (("bb",), "abc"), (("b",), "abc"), (("a",), "abc")]
 STARTS = [(("aa",), "ab"), (("bb",), "ab"), (("ab",), "ab"), (("ba",), "ab"), (("aba",), "ab"), (("bab",), "ab"), (("aa", "bb"), "ab"),
@@ -211,7 +213,7 @@ def pair_job(args):
         b = Bijection.construct(sp1, sp2)
     except Exception as e:
         b = None
-        events.append({"op": "finder", "kind": "construct:" + type(e).__name__, "iso": "F", "bijection": False})
+        events.append({"op": "finder", "kind": "construct:" + type(e).__name__, "iso": "F", "bijection": False, "has_bisim": False})
     nb = 0
     if b is not None:
         nb = 1
@@ -240,7 +242,7 @@ def finder_job(args):
     c2, pack2, se2 = mk_searcher(s2cfg, pk2)
     tid = "%s/%s~%s/%s/%s" % (",".join(s1cfg[0]), pk1, ",".join(s2cfg[0]), pk2, variant)
     Finder = {"plain": ParallelSpecFinder, "eqpath": EqPathParallelSpecFinder}[variant]
-    ev = {"op": "finder", "kind": "none", "iso": "F", "bijection": False}
+    ev = {"op": "finder", "kind": "none", "iso": "F", "bijection": False, "has_bisim": False}
     spec_traces = []
     events = [ev]
     from ..session import scripted_time
@@ -260,6 +262,7 @@ def finder_job(args):
             b = None
         ev["bijection"] = b is not None
         be = bisim_event(sp1, sp2, "finder")
+        ev["has_bisim"] = be is not None
         if be is not None:
             events.append(be)
         if b is not None:
@@ -453,7 +456,7 @@ def run(tier: str, seed: int, pid="C12") -> int:
     run_ = Run(pid, tier, seed)
     rnd = random.Random(seed + 12)
     if pid == "C12":
-        pool = [(s, pk, fl) for s in STARTS[: (14 if tier == "quick" else 20)] for pk in PACKS if pk != "symcycle" and not pk.startswith("two") for fl in ("default", "forget", "forest")]
+        pool = [(s, pk, fl) for s in STARTS[: (14 if tier == "quick" else 20)] for pk in PACKS if pk not in ("symcycle", "symmarked") and not pk.startswith("two") for fl in ("default", "forget", "forest")]
         pairs = [(a, b) for a in pool for b in pool if a[0][1] == b[0][1] or True]
         rnd.shuffle(pairs)
         pairs = pairs[: (260 if tier == "quick" else 6000)]
@@ -505,14 +508,18 @@ def run(tier: str, seed: int, pid="C12") -> int:
         run_.add_tlc(r, "MC_Bisim: greedy pairing = search over all permutations; result is a bisimulation, reflexive, symmetric")
         if r.status == "violated":
             raise tlc.MachineryError("the lemma of Bisim.tla fails:\n" + r.out[-2000:])
-        items = [(s, pk) for s in STARTS[: (12 if tier == "quick" else 20)] for pk in PACKS if pk != "symcycle" and not pk.startswith("two")]
+        items = [(s, pk) for s in STARTS[: (12 if tier == "quick" else 20)] for pk in PACKS if pk not in ("symcycle", "symmarked") and not pk.startswith("two")]
         pairs = [(a, b, v) for a in items for b in items for v in ("plain", "eqpath")]
         rnd.shuffle(pairs)
         pairs = pairs[: (420 if tier == "quick" else 6000)]
         forced = [((STARTS[i], pk1), (STARTS[j], pk2), v) for i, j in ((0, 1), (2, 3), (4, 5), (0, 0), (6, 6), (7, 8))
-                  for pk1 in PACKS if not pk1.startswith("two") for pk2 in PACKS if not pk2.startswith("two") for v in ("plain", "eqpath")]
+                  for pk1 in PACKS if not pk1.startswith("two") and pk1 != "symmarked" for pk2 in PACKS if not pk2.startswith("two") and pk2 != "symmarked" for v in ("plain", "eqpath")]
         abc = [((a, pk1), (b, pk2), v) for a in ABC3 for b in ABC3 for pk1 in ("plain", "symcycle") for pk2 in ("plain", "symcycle") for v in ("plain", "eqpath")]
         two3 = [(a, b, v) for a, b in two3_pairs() for v in ("plain", "eqpath")]
+        # the equivalence-path finder with non-equivalent classes sharing labels on one side only (D19 was found there)
+        for P in (("ab", "ba"), ("aa", "bb"), ("a",), ("aa", "ab", "bb"), ("aba", "bab")):
+            for pk1, pk2 in (("symmarked", "sym"), ("sym", "symmarked"), ("symmarked", "symmarked")):
+                two3.append((((P, "ab"), pk1), ((P, "ab"), pk2), "eqpath"))
         if tier == "thorough":
             import itertools as it
             from ..universes.words import swap_word, cycle_word
